@@ -642,4 +642,30 @@ def rule_f(ctx):
     return r
 
 
-RULES = [rule_a, rule_b, rule_c, rule_d, rule_e, rule_f]
+def rule_g(ctx):
+    r = RuleResult("C05-g", "indented syntax: a loud comment gets a closing `*/` appended only if the text, ignoring trailing whitespace, does not already end with one "
+                   "(otherwise the output has two closers for one opener)")
+    prog = ctx.prog()
+    bs = [x for k, x in prog.bodies.items() if k.endswith("StylesheetParser>::parse_loud_comment") and "sass::SassParser" in k]
+    if len(bs) != 1:
+        raise AnchorMissing("SassParser::parse_loud_comment not found")
+    b = bs[0]
+    ew = []
+    for c in b.calls():
+        if an.tail2(c.callee) == "str::ends_with" and len(c.args) >= 2:
+            pat = an.trace_operand(b, c.args[1])
+            if pat.root[0] == "const" and "*/" in str(pat.root[1]):
+                ew.append(c)
+    if len(ew) != 1:
+        raise AnchorMissing("parse_loud_comment: expected one ends_with(\"*/\") test, found %d" % len(ew))
+    recv = an.trace_operand(b, ew[0].args[0], through_calls=False)
+    trimmed = recv.root[0] == "call" and an.tail2(recv.root[1]) in ("str::trim_end", "str::trim", "str::trim_end_matches")
+    if trimmed:
+        r.ok("parse_loud_comment|closer-test-ignores-trailing-whitespace")
+    else:
+        r.violate("parse_loud_comment|closer-test-ignores-trailing-whitespace", "the `ends_with(\"*/\")` test of the indented-syntax loud comment is applied to untrimmed text (%r): "
+                  "`/* c */` followed by spaces gets a second ` */`, which does not re-parse as CSS" % (recv,), ew[0].loc())
+    return r
+
+
+RULES = [rule_a, rule_b, rule_c, rule_d, rule_e, rule_f, rule_g]
